@@ -464,11 +464,11 @@ func main() {
 	var cfgs []*cfgT
 	for _, p := range plan {
 		for _, full := range []bool{false, true} {
-			name := "c15-light/" + p.slice
+			name, depth := "c15-light/"+p.slice, p.depthLight
 			if full {
-				name = "c15-full/" + p.slice
+				name, depth = "c15-full/"+p.slice, p.depthFull
 			}
-			cfgs = append(cfgs, &cfgT{name: name, fullNode: full, depth: p.depth})
+			cfgs = append(cfgs, &cfgT{name: name, fullNode: full, depth: depth})
 		}
 	}
 	if r.Replay != "" {
